@@ -48,12 +48,15 @@ type Loader struct {
 	OpenErr map[string]bool
 	// ReadErrAfter: paths whose reader fails after n bytes.
 	ReadErrAfter map[string]int
+	// ReadErrWithData: paths whose reader delivers its first n bytes together with the error, once, and io.EOF afterwards
+	// (as bufio.Reader reports a failing source).
+	ReadErrWithData map[string]int
 	// Hook is called at the start of every call (to yield/sleep and widen interleaving windows).
 	Hook func(op, path string)
 }
 
 func NewLoader(inner jet.Loader) *Loader {
-	return &Loader{Inner: inner, Log: &Log{}, OpenErr: map[string]bool{}, ReadErrAfter: map[string]int{}}
+	return &Loader{Inner: inner, Log: &Log{}, OpenErr: map[string]bool{}, ReadErrAfter: map[string]int{}, ReadErrWithData: map[string]int{}}
 }
 
 func (l *Loader) Exists(p string) bool {
@@ -86,6 +89,26 @@ func (f *failingReader) Read(b []byte) (int, error) {
 
 func (f *failingReader) Close() error { return f.r.Close() }
 
+type onceFailingReader struct {
+	r    io.ReadCloser
+	n    int
+	done bool
+}
+
+func (f *onceFailingReader) Read(b []byte) (int, error) {
+	if f.done {
+		return 0, io.EOF
+	}
+	f.done = true
+	if len(b) > f.n {
+		b = b[:f.n]
+	}
+	k, _ := io.ReadFull(f.r, b)
+	return k, ErrInjected
+}
+
+func (f *onceFailingReader) Close() error { return f.r.Close() }
+
 func (l *Loader) Open(p string) (io.ReadCloser, error) {
 	if l.Hook != nil {
 		l.Hook("Open", p)
@@ -98,6 +121,9 @@ func (l *Loader) Open(p string) (io.ReadCloser, error) {
 	l.Log.add(Call{Op: "Open", Path: p, OK: err == nil})
 	if err != nil {
 		return nil, err
+	}
+	if n, ok := l.ReadErrWithData[p]; ok {
+		return &onceFailingReader{r: rc, n: n}, nil
 	}
 	if n, ok := l.ReadErrAfter[p]; ok {
 		return &failingReader{r: rc, n: n}, nil
